@@ -29,7 +29,7 @@ import (
 	"github.com/antonmedv/expr/vm"
 )
 
-const keyTrunc = "c05:jump-offset-truncated"
+const c05KeyTrunc = "c05:jump-offset-truncated"
 
 func runC05(c *Ctx) {
 	r := c.R
@@ -54,7 +54,7 @@ func runC05(c *Ctx) {
 	for _, cs := range cases {
 		r.Case(cs.Src+"|"+cs.Mode.String(), len(cs.Src) > 6)
 	}
-	wfStaticReal(c, cases)
+	c05WfStaticReal(c, cases)
 	lap("wfStatic on real programs")
 	res := VMCorrespondence(c, ok, 1000)
 	// programs on which the compile model disagrees are still run and observed (independent of the model)
@@ -71,9 +71,9 @@ func runC05(c *Ctx) {
 		}
 	}
 	vm.MemoryBudget = old
-	balanceCheck(c, res)
+	c05BalanceCheck(c, res)
 	lap("vm correspondence + balance")
-	bigPrograms(c, bigSpecs(c.Thorough()))
+	c05BigPrograms(c, c05BigSpecs(c.Thorough()))
 	lap("large programs")
 	for _, k := range []string{"wf:checked", "wf:jumps", "wf:scopes", "balance:ok-runs", "big:fits:ran", "big:oversize"} {
 		if r.Counters[k] == 0 {
@@ -84,31 +84,31 @@ func runC05(c *Ctx) {
 
 // ---------------------------------------------------------------- (b) wfStatic on real programs
 
-type realIns struct {
+type c05RealIns struct {
 	Off int
 	Op  byte
 	Arg int
 }
 
-var opHasArg = map[byte]bool{
+var c05OpHasArg = map[byte]bool{
 	vm.OpPush: true, vm.OpFetch: true, vm.OpFetchNilSafe: true, vm.OpFetchMap: true, vm.OpJump: true, vm.OpJumpIfTrue: true,
 	vm.OpJumpIfFalse: true, vm.OpJumpBackward: true, vm.OpMatchesConst: true, vm.OpProperty: true, vm.OpPropertyNilSafe: true,
 	vm.OpCall: true, vm.OpCallFast: true, vm.OpMethod: true, vm.OpMethodNilSafe: true, vm.OpCast: true, vm.OpStore: true,
 	vm.OpLoad: true, vm.OpInc: true,
 }
 
-func isJump(op byte) bool {
+func c05IsJump(op byte) bool {
 	return op == vm.OpJump || op == vm.OpJumpIfTrue || op == vm.OpJumpIfFalse || op == vm.OpJumpBackward
 }
 
-// decodeReal: a plain linear walk (coverage counters and generator sanity only; the verdict is Lean's)
-func decodeReal(p *vm.Program) []realIns {
-	var out []realIns
+// c05DecodeReal: a plain linear walk (coverage counters and generator sanity only; the verdict is Lean's)
+func c05DecodeReal(p *vm.Program) []c05RealIns {
+	var out []c05RealIns
 	b := p.Bytecode
 	for ip := 0; ip < len(b); {
-		in := realIns{Off: ip, Op: b[ip]}
+		in := c05RealIns{Off: ip, Op: b[ip]}
 		ip++
-		if opHasArg[in.Op] {
+		if c05OpHasArg[in.Op] {
 			if ip+1 >= len(b) {
 				break
 			}
@@ -120,7 +120,7 @@ func decodeReal(p *vm.Program) []realIns {
 	return out
 }
 
-func wfAsk(c *Ctx, progs []*vm.Program) ([]string, error) {
+func c05WfAsk(c *Ctx, progs []*vm.Program) ([]string, error) {
 	lines := make([]string, len(progs))
 	for i, p := range progs {
 		lines[i] = T("wfstatic", programSx(p)).String()
@@ -128,7 +128,7 @@ func wfAsk(c *Ctx, progs []*vm.Program) ([]string, error) {
 	return c.AskAll(lines)
 }
 
-func wfStaticReal(c *Ctx, cases []*Case) {
+func c05WfStaticReal(c *Ctx, cases []*Case) {
 	r := c.R
 	var progs []*vm.Program
 	var idx []*Case
@@ -138,15 +138,15 @@ func wfStaticReal(c *Ctx, cases []*Case) {
 			idx = append(idx, cs)
 		}
 	}
-	resp, err := wfAsk(c, progs)
+	resp, err := c05WfAsk(c, progs)
 	if err != nil {
 		r.Mismatch("driver", "wfstatic", err.Error(), "")
 		return
 	}
 	for i, cs := range idx {
 		r.Count("wf:checked", 1)
-		for _, in := range decodeReal(cs.B.Program) {
-			if isJump(in.Op) {
+		for _, in := range c05DecodeReal(cs.B.Program) {
+			if c05IsJump(in.Op) {
 				r.Count("wf:jumps", 1)
 			}
 			if in.Op == vm.OpBegin {
@@ -177,7 +177,7 @@ func wfStaticReal(c *Ctx, cases []*Case) {
 
 // ---------------------------------------------------------------- (c) stack / scope balance after real runs
 
-func underflowMsg(err error) bool {
+func c05UnderflowMsg(err error) bool {
 	if err == nil {
 		return false
 	}
@@ -185,7 +185,7 @@ func underflowMsg(err error) bool {
 	return strings.Contains(m, "index out of range [-1]") || strings.Contains(m, "slice bounds out of range [:-1]")
 }
 
-func balanceCheck(c *Ctx, res []*VMResult) {
+func c05BalanceCheck(c *Ctx, res []*VMResult) {
 	r := c.R
 	for _, vr := range res {
 		o := vr.Real
@@ -202,7 +202,7 @@ func balanceCheck(c *Ctx, res []*VMResult) {
 			continue
 		}
 		r.Count("balance:err-runs", 1)
-		if underflowMsg(o.Err) {
+		if c05UnderflowMsg(o.Err) {
 			r.Violate(Violation{What: "a run popped an empty evaluation stack (or closed a scope that was not open)", Key: "c05:stack-underflow",
 				Input: in, Expect: "no run pops an empty stack", Got: o.Err.Error()})
 		}
@@ -211,7 +211,7 @@ func balanceCheck(c *Ctx, res []*VMResult) {
 
 // ---------------------------------------------------------------- (d) large programs
 
-type BigSpec struct {
+type c05BigSpec struct {
 	Shape string `json:"shape"`
 	T     int    `json:"t"` // the jump offset aimed at (jump shapes) / number of distinct constants (shape consts)
 	Mode  Mode   `json:"mode"`
@@ -220,32 +220,32 @@ type BigSpec struct {
 	Ints  []int  `json:"ints"`
 }
 
-func (s BigSpec) String() string {
+func (s c05BigSpec) String() string {
 	return fmt.Sprintf("%s T=%d %s B=%v I=%d Ints=%v", s.Shape, s.T, s.Mode, s.B, s.I, s.Ints)
 }
 
 // balanced sum of n occurrences of `I` (4n-1 bytes of code: n OpFetch, n-1 OpAdd)
-func sumSrc(sb *strings.Builder, n int) {
+func c05SumSrc(sb *strings.Builder, n int) {
 	if n == 1 {
 		sb.WriteString("I")
 		return
 	}
 	sb.WriteString("(")
-	sumSrc(sb, n/2)
+	c05SumSrc(sb, n/2)
 	sb.WriteString(" + ")
-	sumSrc(sb, n-n/2)
+	c05SumSrc(sb, n-n/2)
 	sb.WriteString(")")
 }
 
-// intBody returns an int expression compiling to exactly L bytes (L >= 3) and its value as a function of I
-func intBody(L int) (string, func(i int) int) {
+// c05IntBody returns an int expression compiling to exactly L bytes (L >= 3) and its value as a function of I
+func c05IntBody(L int) (string, func(i int) int) {
 	k := (L + 1) % 4
 	n := (L + 1 - k) / 4
 	var sb strings.Builder
 	for j := 0; j < k; j++ {
 		sb.WriteString("-(")
 	}
-	sumSrc(&sb, n)
+	c05SumSrc(&sb, n)
 	for j := 0; j < k; j++ {
 		sb.WriteString(")")
 	}
@@ -259,13 +259,13 @@ func intBody(L int) (string, func(i int) int) {
 }
 
 // shape table: source, the byte distance between body size L and the largest jump offset, expected value
-type bigProgram struct {
+type c05BigProgram struct {
 	Src      string
 	Expect   interface{}
 	Oversize bool
 }
 
-func anyInts(f func(x int) interface{}, xs []int) []interface{} {
+func c05AnyInts(f func(x int) interface{}, xs []int) []interface{} {
 	out := make([]interface{}, 0, len(xs))
 	for _, x := range xs {
 		out = append(out, f(x))
@@ -273,9 +273,9 @@ func anyInts(f func(x int) interface{}, xs []int) []interface{} {
 	return out
 }
 
-func buildBig(s BigSpec) bigProgram {
+func c05BuildBig(s c05BigSpec) c05BigProgram {
 	body := func(delta int) (string, int) {
-		src, val := intBody(s.T - delta)
+		src, val := c05IntBody(s.T - delta)
 		return src, val(s.I)
 	}
 	over := s.T > 65535
@@ -286,26 +286,26 @@ func buildBig(s BigSpec) bigProgram {
 		if s.B {
 			e = v
 		}
-		return bigProgram{"B ? " + src + " : 7", e, over}
+		return c05BigProgram{"B ? " + src + " : 7", e, over}
 	case "cond-else": // … Jump (1+L); Pop; body
 		src, v := body(1)
 		e := interface{}(v)
 		if s.B {
 			e = 7
 		}
-		return bigProgram{"B ? 7 : " + src, e, over}
+		return c05BigProgram{"B ? 7 : " + src, e, over}
 	case "and": // l; JumpIfFalse (1 + L+3+1); Pop; body; Push 0; Equal
 		src, v := body(5)
-		return bigProgram{"B and (" + src + " == 0)", s.B && v == 0, over}
+		return c05BigProgram{"B and (" + src + " == 0)", s.B && v == 0, over}
 	case "or":
 		src, v := body(5)
-		return bigProgram{"B or (" + src + " == 0)", s.B || v == 0, over}
+		return c05BigProgram{"B or (" + src + " == 0)", s.B || v == 0, over}
 	case "map-back": // backward jump = 7 + 3 + (1 + L + 3) + 3
 		src, v := body(17)
-		return bigProgram{"map(Ints, {" + src + "})", anyInts(func(int) interface{} { return v }, s.Ints), over}
+		return c05BigProgram{"map(Ints, {" + src + "})", c05AnyInts(func(int) interface{} { return v }, s.Ints), over}
 	case "map-exit": // exit jump = (1 + L + 3) + 3; the backward jump is 10 larger
 		src, v := body(7)
-		return bigProgram{"map(Ints, {" + src + "})", anyInts(func(int) interface{} { return v }, s.Ints), s.T+10 > 65535}
+		return c05BigProgram{"map(Ints, {" + src + "})", c05AnyInts(func(int) interface{} { return v }, s.Ints), s.T+10 > 65535}
 	case "filter-back": // body = L+4 (== 0) + emitCond(Inc, Load, Load, Index) = L+22; back = L+39
 		src, v := body(39)
 		var keep []interface{}
@@ -317,17 +317,17 @@ func buildBig(s BigSpec) bigProgram {
 		if keep == nil {
 			keep = []interface{}{}
 		}
-		return bigProgram{"filter(Ints, {" + src + " == 0})", keep, over}
+		return c05BigProgram{"filter(Ints, {" + src + " == 0})", keep, over}
 	case "count-back": // body = L+4 + emitCond(Inc) = L+15; back = L+32
 		src, v := body(32)
 		n := 0
 		if v == 0 {
 			n = len(s.Ints)
 		}
-		return bigProgram{"count(Ints, {" + src + " == 0})", n, over}
+		return c05BigProgram{"count(Ints, {" + src + " == 0})", n, over}
 	case "all-back": // body = L+4 + JumpIfFalse + Pop = L+8; back = L+25
 		src, v := body(25)
-		return bigProgram{"all(Ints, {" + src + " == 0})", len(s.Ints) == 0 || v == 0, over}
+		return c05BigProgram{"all(Ints, {" + src + " == 0})", len(s.Ints) == 0 || v == 0, over}
 	case "consts": // T distinct constants: the elements 0..T-2 and the length T-1
 		var sb strings.Builder
 		sb.WriteString("[")
@@ -340,20 +340,20 @@ func buildBig(s BigSpec) bigProgram {
 			exp = append(exp, i)
 		}
 		sb.WriteString("]")
-		return bigProgram{sb.String(), exp, s.T > 65535}
+		return c05BigProgram{sb.String(), exp, s.T > 65535}
 	}
 	panic("shape " + s.Shape)
 }
 
-func bigSpecs(thorough bool) []BigSpec {
+func c05BigSpecs(thorough bool) []c05BigSpec {
 	typed := Mode{Env: "struct", Optimize: false}
 	opt := Mode{Env: "struct", Optimize: true}
 	untyped := Mode{Env: "none"}
-	var out []BigSpec
+	var out []c05BigSpec
 	add := func(shape string, m Mode, ts ...int) {
 		for _, t := range ts {
 			if shape == "consts" {
-				out = append(out, BigSpec{shape, t, m, false, 0, nil})
+				out = append(out, c05BigSpec{shape, t, m, false, 0, nil})
 				continue
 			}
 			for _, b := range []bool{false, true} {
@@ -361,7 +361,7 @@ func bigSpecs(thorough bool) []BigSpec {
 				if b {
 					i = 3
 				}
-				out = append(out, BigSpec{shape, t, m, b, i, ints})
+				out = append(out, c05BigSpec{shape, t, m, b, i, ints})
 			}
 		}
 	}
@@ -392,14 +392,14 @@ func bigSpecs(thorough bool) []BigSpec {
 	return out
 }
 
-func bigEnv(s BigSpec) *Env {
+func c05BigEnv(s c05BigSpec) *Env {
 	k := 0
 	e := NewEnv(0, func(n int) int { k++; return k % n })
 	e.B, e.I, e.Ints = s.B, s.I, s.Ints
 	return e
 }
 
-type ChildOut struct {
+type c05ChildOut struct {
 	CompileErr string `json:"compile_err"`
 	Ran        bool   `json:"ran"`
 	Val        string `json:"val"`
@@ -409,7 +409,7 @@ type ChildOut struct {
 	Aborted    string `json:"aborted"` // "timeout" | "runaway-memory"
 }
 
-// child mode: `harness c05-child` reads a BigSpec on stdin, builds and runs it, prints a ChildOut
+// child mode: `harness c05-child` reads a c05BigSpec on stdin, builds and runs it, prints a c05ChildOut
 func init() {
 	props["C05"] = runC05
 	if len(os.Args) > 1 && os.Args[1] == "c05-child" {
@@ -419,19 +419,19 @@ func init() {
 }
 
 func c05Child() {
-	var s BigSpec
+	var s c05BigSpec
 	if err := json.NewDecoder(os.Stdin).Decode(&s); err != nil {
 		fmt.Println(`{"compile_err":"bad spec"}`)
 		return
 	}
-	out := ChildOut{}
+	out := c05ChildOut{}
 	emit := func() {
 		b, _ := json.Marshal(out)
 		os.Stdout.Write(b)
 		os.Exit(0)
 	}
-	env := bigEnv(s)
-	bp := buildBig(s)
+	env := c05BigEnv(s)
+	bp := c05BuildBig(s)
 	b := BuildReal(bp.Src, s.Mode, env)
 	if b.Program == nil {
 		out.CompileErr = b.Stage + ": " + b.Err.Error()
@@ -482,7 +482,7 @@ func c05Child() {
 	}
 }
 
-func runChild(s BigSpec) (*ChildOut, error) {
+func c05RunChild(s c05BigSpec) (*c05ChildOut, error) {
 	self, err := os.Executable()
 	if err != nil {
 		return nil, err
@@ -495,33 +495,33 @@ func runChild(s BigSpec) (*ChildOut, error) {
 	var stdout, stderr bytes.Buffer
 	cmd.Stdout, cmd.Stderr = &stdout, &stderr
 	if err := cmd.Run(); err != nil {
-		return &ChildOut{Aborted: "crashed: " + err.Error() + " " + tail(stderr.String(), 300)}, nil
+		return &c05ChildOut{Aborted: "crashed: " + err.Error() + " " + c05Tail(stderr.String(), 300)}, nil
 	}
-	var out ChildOut
+	var out c05ChildOut
 	if err := json.Unmarshal(stdout.Bytes(), &out); err != nil {
-		return nil, fmt.Errorf("child output: %v: %s", err, tail(stdout.String(), 300))
+		return nil, fmt.Errorf("child output: %v: %s", err, c05Tail(stdout.String(), 300))
 	}
 	return &out, nil
 }
 
-func head(s string, n int) string {
+func c05Head(s string, n int) string {
 	if len(s) > n {
 		return s[:n]
 	}
 	return s
 }
 
-func tail(s string, n int) string {
+func c05Tail(s string, n int) string {
 	if len(s) > n {
 		return s[len(s)-n:]
 	}
 	return s
 }
 
-func maxJumpOperand(p *vm.Program) int {
+func c05MaxJumpOperand(p *vm.Program) int {
 	m := -1
-	for _, in := range decodeReal(p) {
-		if isJump(in.Op) && in.Arg > m {
+	for _, in := range c05DecodeReal(p) {
+		if c05IsJump(in.Op) && in.Arg > m {
 			m = in.Arg
 		}
 	}
@@ -529,26 +529,26 @@ func maxJumpOperand(p *vm.Program) int {
 }
 
 // stripped program for the wfstatic stage: the location table is not part of well-formedness
-func wfLine(p *vm.Program) string {
+func c05WfLine(p *vm.Program) string {
 	q := *p
 	q.Locations = nil
 	return T("wfstatic", programSx(&q)).String()
 }
 
-func bigPrograms(c *Ctx, specs []BigSpec) {
+func c05BigPrograms(c *Ctx, specs []c05BigSpec) {
 	r := c.R
 	type prog struct {
-		s        BigSpec
-		bp       bigProgram
+		s        c05BigSpec
+		bp       c05BigProgram
 		cs       *Case
 		wf       string
 		wfErr    error
 		modelled bool
 	}
 	type item struct {
-		s     BigSpec
+		s     c05BigSpec
 		p     *prog
-		child *ChildOut
+		child *c05ChildOut
 		cerr  error
 	}
 	progs := map[string]*prog{}
@@ -558,8 +558,8 @@ func bigPrograms(c *Ctx, specs []BigSpec) {
 		key := fmt.Sprintf("%s|%d|%s", s.Shape, s.T, s.Mode)
 		p := progs[key]
 		if p == nil {
-			p = &prog{s: s, bp: buildBig(s)}
-			p.cs = &Case{Src: p.bp.Src, Mode: s.Mode, Env: bigEnv(s)}
+			p = &prog{s: s, bp: c05BuildBig(s)}
+			p.cs = &Case{Src: p.bp.Src, Mode: s.Mode, Env: c05BigEnv(s)}
 			progs[key] = p
 			order = append(order, p)
 		}
@@ -573,7 +573,7 @@ func bigPrograms(c *Ctx, specs []BigSpec) {
 		go func(it *item) {
 			defer wg.Done()
 			sem <- struct{}{}
-			it.child, it.cerr = runChild(it.s)
+			it.child, it.cerr = c05RunChild(it.s)
 			<-sem
 		}(it)
 	}
@@ -596,7 +596,7 @@ func bigPrograms(c *Ctx, specs []BigSpec) {
 				p.cs.B = BuildReal(p.cs.Src, p.cs.Mode, p.cs.Env)
 			}
 			if p.cs.B.Program != nil {
-				resp, err := c.AskAll([]string{wfLine(p.cs.B.Program)})
+				resp, err := c.AskAll([]string{c05WfLine(p.cs.B.Program)})
 				p.wfErr = err
 				if err == nil {
 					p.wf = resp[0]
@@ -611,19 +611,19 @@ func bigPrograms(c *Ctx, specs []BigSpec) {
 		r.Case("big|"+p.s.Shape+fmt.Sprintf("|%d|", p.s.T)+p.s.Mode.String(), true)
 	}
 	for _, it := range items {
-		s, bp, b := it.s, buildExpect(it.s, it.p.bp), it.p.cs.B
-		expectTxt := "Compile rejects the program, or it is well-formed and the run returns " + head(valSx(bp.Expect).String(), 60) + " with an empty stack"
-		key := keyTrunc
+		s, bp, b := it.s, c05BuildExpect(it.s, it.p.bp), it.p.cs.B
+		expectTxt := "Compile rejects the program, or it is well-formed and the run returns " + c05Head(valSx(bp.Expect).String(), 60) + " with an empty stack"
+		key := c05KeyTrunc
 		what := "a jump offset above 65535 is silently truncated to 16 bits by patchJump/calcBackwardJump: the emitted jump does not reach its intended target"
 		if s.Shape == "consts" {
 			key, what = "c05:constant-index-overflow", "a program with more constants than a 16-bit index can name is neither rejected nor correct"
 		}
 		if !bp.Oversize {
 			key, what = "c05:large-program-broken", "a large program whose offsets all fit 16 bits misbehaves"
-			expectTxt = "the program compiles, is well-formed and the run returns " + head(valSx(bp.Expect).String(), 60) + " with an empty stack"
+			expectTxt = "the program compiles, is well-formed and the run returns " + c05Head(valSx(bp.Expect).String(), 60) + " with an empty stack"
 		}
 		viol := func(got string) {
-			r.Violate(Violation{What: what, Key: key, Input: map[string]interface{}{"big": s, "src_len": len(bp.Src), "src_head": head(bp.Src, 60)},
+			r.Violate(Violation{What: what, Key: key, Input: map[string]interface{}{"big": s, "src_len": len(bp.Src), "src_head": c05Head(bp.Src, 60)},
 				Expect: expectTxt, Got: got})
 		}
 		if bp.Oversize {
@@ -657,7 +657,7 @@ func bigPrograms(c *Ctx, specs []BigSpec) {
 			if s.Shape == "map-exit" {
 				want = s.T + 10
 			}
-			if got := maxJumpOperand(b.Program); got != want {
+			if got := c05MaxJumpOperand(b.Program); got != want {
 				r.Mismatch("generator", "big "+s.String(), fmt.Sprintf("largest jump operand %d", want), fmt.Sprint(got))
 			}
 		}
@@ -675,14 +675,14 @@ func bigPrograms(c *Ctx, specs []BigSpec) {
 		case ch.Aborted != "":
 			got = append(got, "run aborted: "+ch.Aborted)
 		case ch.Err != "":
-			e := strings.ReplaceAll(head(ch.Err, 90), "\n", " ")
-			if underflowMsg(fmt.Errorf("%s", ch.Err)) {
+			e := strings.ReplaceAll(c05Head(ch.Err, 90), "\n", " ")
+			if c05UnderflowMsg(fmt.Errorf("%s", ch.Err)) {
 				e += " (pop of an empty stack)"
 			}
 			got = append(got, "run error: "+e)
 		default:
 			if ch.Val != valSx(bp.Expect).String() {
-				got = append(got, "run returned "+head(ch.Val, 80)+" instead of "+head(valSx(bp.Expect).String(), 80))
+				got = append(got, "run returned "+c05Head(ch.Val, 80)+" instead of "+c05Head(valSx(bp.Expect).String(), 80))
 			}
 			if ch.StackLen != 0 || ch.Scopes != 0 {
 				got = append(got, fmt.Sprintf("after the run stack=%d scopes=%d", ch.StackLen, ch.Scopes))
@@ -701,11 +701,11 @@ func bigPrograms(c *Ctx, specs []BigSpec) {
 }
 
 // the expected value depends on the environment of the individual run, the source does not
-func buildExpect(s BigSpec, shared bigProgram) bigProgram {
+func c05BuildExpect(s c05BigSpec, shared c05BigProgram) c05BigProgram {
 	if s.Shape == "consts" {
 		return shared
 	}
-	bp := buildBig(s)
+	bp := c05BuildBig(s)
 	bp.Src = shared.Src
 	return bp
 }
@@ -719,7 +719,7 @@ func replayC05(c *Ctx) bool {
 	var f struct {
 		Violation struct {
 			Input struct {
-				Big *BigSpec `json:"big"`
+				Big *c05BigSpec `json:"big"`
 			} `json:"input"`
 		} `json:"violation"`
 	}
@@ -727,9 +727,9 @@ func replayC05(c *Ctx) bool {
 		return false
 	}
 	s := *f.Violation.Input.Big
-	if reflect.DeepEqual(s, BigSpec{}) {
+	if reflect.DeepEqual(s, c05BigSpec{}) {
 		return false
 	}
-	bigPrograms(c, []BigSpec{s})
+	c05BigPrograms(c, []c05BigSpec{s})
 	return true
 }
